@@ -489,6 +489,35 @@ Section History.
     reflexivity.
   Qed.
 
+  (* Clear on a response that already carries cookies (a refresh earlier in the same request): the deletions are
+     computed from the presented cookies AND the names already set; whatever those further names are, the family of
+     the presenting jar is emptied all the same, and nothing outside it is touched *)
+  Lemma clear_extra_step j extra :
+    dom_ok name D P j ->
+    dom_ok name D P (jar_apply j (store_clear cfg host (jar_cookies j) extra)) /\
+    filter (otherb name) (jar_apply j (store_clear cfg host (jar_cookies j) extra)) = filter (otherb name) j /\
+    filter (sessb name) (jar_apply j (store_clear cfg host (jar_cookies j) extra)) = [] /\
+    forall now, store_load mac cfg (jar_cookies (jar_apply j (store_clear cfg host (jar_cookies j) extra))) now = None.
+  Proof.
+    intros Hd. unfold store_clear.
+    set (ns := session_cookie_names (c_name cfg) (map fst (jar_cookies j) ++ extra)).
+    assert (Hdels : Forall (ours name D P) (map (delete_cookie cfg host) ns)).
+    { apply Forall_forall. intros d Hin. apply in_map_iff in Hin as (n & <- & Hn). apply delete_ours.
+      eapply session_names_acc_sound. exact Hn. }
+    destruct (apply_family name D P _ j Hd Hdels) as (Hfam & Hoth & Hd').
+    assert (Hempty : filter (sessb name) (jar_apply j (map (delete_cookie cfg host) ns)) = []).
+    { rewrite Hfam, (dels_fold (delete_cookie cfg host) delete_mk). apply filter_none.
+      intros e He. apply filter_In in He as [He Hse]. apply negb_false_iff, mem_str_in.
+      unfold ns, session_cookie_names. apply session_names_acc_complete; [|exact Hse|intros []].
+      apply in_or_app. left. unfold jar_cookies. rewrite map_map. cbn [fst]. apply in_map. exact He. }
+    split; [exact Hd'|]. split; [exact Hoth|]. split; [exact Hempty|].
+    intro now. unfold store_load, load_cookie. fold name.
+    rewrite (find_family name name _ (self_session name)), Hempty. cbn [jar_cookies map find_cookie].
+    cbn [collect_parts].
+    rewrite (find_family name _ _ (split_name_session name 0 ltac:(unfold int64_max; lia))), Hempty.
+    reflexivity.
+  Qed.
+
   Lemma run_dom_ok ops : forall j j',
     dom_ok name D P j -> Forall op_ok ops -> jar_run mac cfg host j ops = Some j' ->
     dom_ok name D P j' /\ filter (otherb name) j' = filter (otherb name) j.
